@@ -315,6 +315,35 @@ pub fn c04(cfg: &Value) {
             }
             return;
         }
+        "request-by-another-thread-during-shutdown" => {
+            // entries are appended, then main drops the join handle while another thread requests
+            // a flush: whether the request lands before the shutdown began, while the writer is
+            // still draining, or after it has exited, its completion means the entries appended
+            // before it are written and flushed
+            for si in 0..n {
+                let t = Tag { p: 0, seq: si as u8 };
+                ops.touch();
+                q.append(t);
+                returned.push(t);
+            }
+            {
+                let (q, log, returned, ops) = (q.clone(), log.clone(), returned.clone(), ops.clone());
+                threads.push(thread::spawn(move || {
+                    let before = returned.get();
+                    ops.touch();
+                    let fut = q.flush_async();
+                    let ((), snap) = wait_with_snapshot(fut, &log);
+                    mc::outcome(format!("request-during-shutdown snap={}", log_string(&snap)));
+                    check_flush_snapshot("request-by-another-thread-during-shutdown", &before, &snap, displaced_ok);
+                }));
+            }
+            ops.touch();
+            drop(handle);
+            for t in threads {
+                t.join().unwrap();
+            }
+            return;
+        }
         "last-handle-dropped" => {
             // the requester owns the only queue handle and drops it right after the request:
             // append(s); flush_async(); drop(queue). The request was made on a live queue.
